@@ -87,3 +87,29 @@ func firstDiff(a, b []byte) int {
 	}
 	return -1
 }
+
+// snaps remembers the contents of input buffers (and of outputs already
+// judged) so that every later call can be checked for not having written to
+// them: nothing but the documented output of a call may change.
+type snaps struct {
+	names []string
+	live  [][]byte
+	saved [][]byte
+}
+
+func (s *snaps) add(name string, b []byte) {
+	s.names = append(s.names, name)
+	s.live = append(s.live, b)
+	s.saved = append(s.saved, append([]byte{}, b...))
+}
+
+// changed returns the name of the first remembered buffer whose contents differ
+// from its snapshot ("" if none).
+func (s *snaps) changed() string {
+	for i := range s.live {
+		if string(s.live[i]) != string(s.saved[i]) {
+			return s.names[i]
+		}
+	}
+	return ""
+}
